@@ -1,4 +1,4 @@
 """Contract files: one per area.  Files whose name starts with a WIP prefix are still being built by a contract
 builder; they are loaded by tools/run_harness.py (PYVC_WIP=1) but take part in ./check only once accepted."""
 WIP_PREFIXES = ('w2_', 'w3_', 'w4_', 'w5_')
-ACCEPTED_WIP: tuple = ('w2_daemon_exec', 'w2_registries', 'w2_observation', 'w2_admission_misc', 'w2_storage', 'w3_aiokits', 'w3_clients', 'w3_posting', 'w3_causes', 'w4_views', 'w4_structs', 'w4_state_misc', 'w4_creds_misc', 'w5_webhookserver', 'w5_killer', 'w5_observation', 'w5_refs', 'w5_keys', 'w5_misc', 'w5_native', 'w5_patches')
+ACCEPTED_WIP: tuple = ('w2_daemon_exec', 'w2_registries', 'w2_observation', 'w2_admission_misc', 'w2_storage', 'w3_aiokits', 'w3_clients', 'w3_posting', 'w3_causes', 'w4_views', 'w4_structs', 'w4_state_misc', 'w4_creds_misc', 'w5_webhookserver', 'w5_killer', 'w5_observation', 'w5_refs', 'w5_keys', 'w5_misc', 'w5_native', 'w5_patches', 'w5_findings', 'w5_native_processing', 'w5_native_clients', 'w5_native_queueing', 'w5_native_watcher', 'w5_native_timer')
